@@ -284,11 +284,77 @@ def run(ctx, B):
                         "string corpus and file alphabet are finite; crystal files longer than the bound are represented by prefixes of the shipped file only (thorough)"]
 
 
+def reported_alloc_failures(ctx, B, cfg):
+    """Failure paths the library itself claims to handle.  In the 'fa' builds only the library's own allocation requests go through a seam; for every entry point and
+    up to 3 succeeding tuples (plus a valid crystal file and three allocation histories) the k-th request is made to fail, k = 1, 2, ...  Where the call REPORTS the failure
+    (an error is stored) it must leave no block behind, no sanitizer report, and the process intact: the same tuples are run again without the fault and must give the
+    results of the undisturbed run.  Failure points at which the call dies or carries on with an unchecked NULL are counted and skipped (DESIGN.md 11.9: the library does
+    not claim to survive those)."""
+    F_AF = xrl.F_ALLOCFAIL
+    pts = rep = 0
+    for var in ("fa", "fa_asan"):
+        X = xrl.Xrl(var, cfg, build=B, nproc=1)
+
+        def arm(k):
+            X._run(1, "__failalloc", "i", [np.array([k], dtype=np.int32)], 0)
+        try:
+            plans = list(c03.build_plans(B, cfg, 0, ctx.seed))
+            valid = "#S 1 Nm\n#UCELL 5.4 5.4 5.4 90 90 90\n#L AtomicNumber Fraction X Y Z\n14 1.0 0.0 0.5 0.5\n8 0.5 0.25 0.25 0.25\n#EOF\n"
+            plans.append(c03.Plan("readfile_content", "op", "sii", [[valid, valid], np.array([0, 2]), np.array([0, 0])], op="readfile_content"))
+            plans.append(c03.Plan("hist", "op", "si", [["P0 C G0 K F f", "N0 R0 L0 L1 F F", "G0 K U0 U6 x0"], np.array([0, 0, 0])], op="hist"))
+            for p in plans:
+                if ctx.expired():
+                    break
+                q, _ = strided(p, 3000, ctx.seed)
+                arm(0)
+                r0 = c03.run_plan(X, q, 0)
+                ok = np.nonzero(((r0["flags"] & F_ERR) == 0) & ((r0["flags"] & F_AUX) == 0))[0]
+                if not len(ok):
+                    continue
+                idx = np.unique(np.array([ok[0], ok[len(ok) // 2], ok[-1]]))
+                sp = c03.Plan(q.name, q.kind, q.sig, [[c[i] for i in idx] if isinstance(c, list) else np.asarray(c)[idx] for c in q.cols], q.op)
+                base = r0[idx]
+                for k in range(1, 60):
+                    arm(k)
+                    rr = c03.run_plan(X, sp, 0)            # crash-contained: a tuple that kills the process is bisected and the drivers restarted
+                    arm(0)
+                    hit = (rr["flags"] & F_AF) != 0
+                    if not hit.any():
+                        break
+                    pts += int(hit.sum())
+                    reported = hit & ((rr["flags"] & F_ERR) != 0)
+                    rep += int(reported.sum())
+                    bad = reported & ((rr["leak"] != 0) | ((rr["flags"] & F_SAN) != 0))
+                    after = c03.run_plan(X, sp, 0)
+                    badafter = reported.any() and (np.any(after["v0"].view(np.uint64) != base["v0"].view(np.uint64)) | np.any((after["flags"] & (F_ERR | F_SAN)) != (base["flags"] & (F_ERR | F_SAN))) | np.any(after["leak"] != base["leak"]))
+                    for j in np.nonzero(bad)[0][:3]:
+                        a = c03.argtuple(sp, int(j))
+                        ctx.violation("%s|%s|alloc-failure-%d|%s|%s" % (cfg, p.name, k, "sanitizer" if rr["flags"][j] & F_SAN else "leak", var),
+                                      "%s%r: the %d-th allocation request of the call fails and the call reports it (code %d): %s" % (
+                                          p.name, tuple(a), k, int(rr["code"][j]), "sanitizer report on the failure path" if rr["flags"][j] & F_SAN else "%d block(s) stay allocated" % int(rr["leak"][j])),
+                                      dict(cfg=cfg, variant=var, note="allocation failure point %d" % k, calls=[]))
+                    if badafter:
+                        ctx.violation("%s|%s|alloc-failure-%d|state-damaged|%s" % (cfg, p.name, k, var),
+                                      "%s: after the %d-th allocation request failed (and was reported) the same calls no longer give the results of the undisturbed run: %r vs %r" % (
+                                          p.name, k, after["v0"].tolist(), base["v0"].tolist()), dict(cfg=cfg, variant=var, note="allocation failure point %d" % k, calls=[]))
+        finally:
+            try:
+                arm(0)
+            except Exception:
+                pass
+            X.close()
+    ctx.add(evaluations=pts)
+    ctx.notes.setdefault("reported_alloc_failures", {})[cfg] = dict(failure_points=pts, reported_by_the_call=rep)
+
+
 def main(tier, seed):
     ctx = common.Ctx(PID, tier, seed, "model_checking", deadline_s=1500 if tier == "quick" else 5400)
     B = build.Build()
     try:
         run(ctx, B)
+        for cfg in ("A", "K"):
+            if not ctx.expired():
+                reported_alloc_failures(ctx, B, cfg)
     except xrl.DriverDied as ex:
         # every batch of this check goes through the crash-containing calls; a library process that dies OUTSIDE one (while being restarted, while serving a
         # bookkeeping request) has had its heap corrupted by an earlier call: for a memory-safety property that is a violation, not an infrastructure problem
